@@ -6,6 +6,7 @@ package flyt
 
 import (
 	"context"
+	"fmt"
 	"sync/atomic"
 	"time"
 )
@@ -18,6 +19,23 @@ func (e *vError) Error() string { return "verr" }
 var vErrSeq int
 
 func vNewErr() error { vErrSeq++; return &vError{id: vErrSeq} }
+
+// vFailure builds the error of a failing callback in one of several forms a user callback may
+// legitimately produce (forks on the form): a plain error value, an error that wraps a context
+// error although the run's own context is alive (an inner timeout), or a typed-nil pointer error
+// (`var e *MyErr; return e` — a non-nil error interface all the same).
+func vFailure(label string) error {
+	switch vChoice(label+".errForm", 4) {
+	case 0:
+		return vNewErr()
+	case 1:
+		return fmt.Errorf("inner call: %w", context.Canceled)
+	case 2:
+		return fmt.Errorf("inner call: %w", context.DeadlineExceeded)
+	default:
+		return (*vError)(nil)
+	}
+}
 
 // vCustomErr is a custom-typed error (for errors.As checks).
 type vCustomErr struct{ code int }
@@ -118,7 +136,7 @@ type vInfo struct {
 	elems   []any // for slices: the elements, boxed, in order (nil when not checked element-wise)
 }
 
-const vCatalogueSize = 41
+const vCatalogueSize = 43
 
 // vAnyOf returns a value whose dynamic type is chosen (by forking) from the catalogue; scalar
 // contents are symbolic. The info says what the *documentation* promises about it.
@@ -212,8 +230,12 @@ func vAnyOf(label string) (any, vInfo) {
 		return [1]int{vNondet[int](label + ".v")}, vInfo{}
 	case 39:
 		return [1][]int{{1}}, vInfo{} // array of slices: not comparable
-	default:
+	case 40:
 		return vNondet[uintptr](label + ".v"), vInfo{}
+	case 41:
+		return &vError{id: 77}, vInfo{} // a payload that happens to implement error (pointer type)
+	default:
+		return vCustomErr{code: vNondet[int](label + ".v")}, vInfo{} // ... and a value type implementing error
 	}
 }
 
